@@ -314,9 +314,12 @@ def run_behaviour(beh: dict, max_iter: int | None = None, ext=None):
     bore = GHEBorehole(100.0, 2.0, 0.075, 0.0, 0.0)
     flow_type = FlowConfigType.BOREHOLE if cfg["flow"] == "BOREHOLE" else FlowConfigType.SYSTEM
     lists = cfg["lists"]
+    # the progress-printing option of the search classes has no place in the model (it must not matter): it is switched on for
+    # about half of the behaviours, chosen by the configuration alone
+    disp = (sum(len(l) for l in lists) + (cfg["cap"] or 0) + (1 if cfg["cont"] else 0)) % 2 == 1
     common = dict(v_flow=V_FLOW, borehole=bore, bhe_type=BHPipeType.SINGLEUTUBE, fluid=fluid, pipe=None, grout=None,
                   soil=None, sim_params=sp, hourly_extraction_ground_loads=[0.0], method=TimestepType.HYBRID,
-                  flow_type=flow_type)
+                  flow_type=flow_type, disp=disp)
 
     def build():
         if MODE == "1D":
